@@ -120,6 +120,7 @@ type Byz struct {
 	held         []*Msg // messages of the real instance held back, sent later in the round (own order of broadcasts changed)
 	faulted      []int  // receivers whose private share was omitted / replaced / malformed (the injector prefers them)
 	torsionFor   int    // >= 0: torsion-cancelling vector attack aimed at this participant
+	torsionFermat bool  // A_p + T, A_{p+12} - T with ord(T) = 13 (see setup)
 	bias         map[string]int // swarm: message kind -> action this participant prefers in this run (1 omit .. 6 hold back)
 	floor        int // broadcasts never land in an earlier round than a previous one of the same sender
 	crashAt      int // event count at which the participant crash-stops (0 = never)
